@@ -57,8 +57,7 @@ Section Eval.
       filter (fun x => is_field x && negb (existsb (String.eqb (n_alias x)) (map n_alias body))) all.
 
     (** a value of union member [t]: the member's fragment, with the union-level field selections pushed into
-        it as graphql.PrepareQuery does; no fragment for the member renders null
-        (graphql/batch_executor.go:404-418) *)
+        it as graphql.PrepareQuery does (graphql/batch_executor.go:392-438) *)
     Section Subs.
       Variable subs : list node.   (* the selection set of the field being evaluated *)
 
@@ -66,7 +65,14 @@ Section Eval.
         Variables (t : string) (i : Z).
         Fixpoint pick_gen (l : list node) {struct l} : json :=
           match l with
-          | [] => JNull
+          | [] =>
+              (* no fragment for the member: the union-level field selections alone (resolveUnionBatch resolves the
+                 member over the union-level selections and the fragments on it -- as repaired for C01/C14; before
+                 that repair the value was null) *)
+              JObj (key_kv t i ++
+                    flat_map (fun x => if is_field x && negb (existsb (String.eqb (n_alias x)) (map n_alias (@nil node)))
+                                       then evn x t i else []) subs ++
+                    evs [] t i)
           | NFrag on _ body :: r =>
               if String.eqb on t then
                 JObj (key_kv t i ++
